@@ -23,7 +23,8 @@ Inductive pyexc :=
 | XVisitation         (* parsimonious.VisitationError *)
 | XZeroDivision | XOverflow | XValueError | XKeyError | XStopIteration | XUnicodeEncode | XUnicodeDecode
 | XAssertion | XTypeError | XRecursion | XOSError
-| XMemoryOrSystem.    (* MemoryError, SystemError, SystemExit: deliberately let through *)
+| XMemoryOrSystem     (* MemoryError, SystemError: let through by the visitor and by DSDLDefinition.read *)
+| XSystemExit.        (* not an Exception: never caught *)
 
 Definition is_error (x : pyexc) : bool := match x with XInvalid | XInternalError => true | _ => false end.
 
@@ -115,7 +116,7 @@ Inductive stage := SGrammar (* _get_grammar().parse(text) *) | SVisit (* pr.visi
 
 (* NodeVisitor.visit: unwrapped_exceptions = (Error, SystemError, MemoryError, SystemExit) *)
 Definition visit_wrap (x : pyexc) : pyexc :=
-  if is_error x then x else match x with XMemoryOrSystem => x | _ => XVisitation end.
+  if is_error x then x else match x with XMemoryOrSystem | XSystemExit => x | _ => XVisitation end.
 
 Definition parse_funnel (st : stage) (x : pyexc) : pyexc :=
   let x1 := match st with SVisit => visit_wrap x | _ => x end in
@@ -131,15 +132,16 @@ Definition definition_funnel (x : pyexc) : pyexc * bool :=
   if is_error x then (x, true)
   else match x with
        | XUnicodeDecode => (XInvalid, true)      (* the file is not UTF-8 (repair F19) *)
-       | XMemoryOrSystem => (x, false)
+       | XMemoryOrSystem | XSystemExit => (x, false)
        | _ => (XInternalError, true)
        end.
 
-(* the try/except around target_definition.read(...) in _read_definitions *)
+(* the try/except around target_definition.read(...) in _read_definitions: "except Exception" also catches
+   MemoryError and SystemError *)
 Definition reader_funnel (x : pyexc) : pyexc * bool :=
   if is_error x then (x, true)
   else match x with
-       | XMemoryOrSystem => (x, false)
+       | XSystemExit => (x, false)
        | _ => (XInternalError, true)
        end.
 
